@@ -49,6 +49,7 @@ type aCoin struct {
 }
 type aState struct {
 	Bal    map[string]int `json:"bal"`
+	Tok    map[string]int `json:"tok"`
 	Nonce  map[string]int `json:"nonce"`
 	Coins  []aCoin        `json:"coins"`
 	Held   int            `json:"held"`
@@ -64,11 +65,42 @@ func (t aTx) class() string    { var s string; json.Unmarshal(t.N, &s); return s
 var Unit = appx.LKC(1000)
 
 var (
+	addrToken  = common.HexToAddress("0x0000000000000000000000000000000000070c01") // the token T (an id, not a contract)
+	addrP1     = common.HexToAddress("0x00000000000000000000000000000000000a55e1") // passive, token-only at genesis
+	addrFwd    = common.HexToAddress("0x00000000000000000000000000000000000c5703")
+	addrSlots  = common.HexToAddress("0x00000000000000000000000000000000000c5704")
 	addrStore  = common.HexToAddress("0x00000000000000000000000000000000000c5701")
 	addrRevert = common.HexToAddress("0x00000000000000000000000000000000000c5702")
 	codeStore  = []byte{0x00}                         // STOP: keeps what it receives
 	codeRevert = []byte{0x60, 0x00, 0x60, 0x00, 0xfd} // PUSH1 0 PUSH1 0 REVERT
 )
+
+// codeSlots stores the 12 words of its call data into storage slots 0..11 (a zero word clears the slot).
+var codeSlots = []byte{0x60, 0x00, 0x5b, 0x80, 0x60, 0x20, 0x02, 0x35, 0x81, 0x55, 0x60, 0x01, 0x01, 0x80, 0x60, 0x0c, 0x11, 0x60, 0x02, 0x57, 0x00}
+
+// slotsData: pattern 1 fills all 12 slots, pattern 2 overwrites 11 of them and clears one.
+func slotsData(pattern int, salt byte) []byte {
+	d := make([]byte, 12*32)
+	for i := 0; i < 12; i++ {
+		if pattern == 2 && i == 5 {
+			continue // zero word: SSTORE 0 deletes the slot
+		}
+		d[i*32+31] = byte(1 + i + 16*pattern)
+		d[i*32+30] = salt
+	}
+	return d
+}
+
+// codeFwd: CALL(gas, p1, callvalue, 0,0,0,0); revert if the call failed.
+func codeFwd() []byte {
+	c := []byte{0x60, 0x00, 0x60, 0x00, 0x60, 0x00, 0x60, 0x00, 0x34, 0x73}
+	c = append(c, addrP1.Bytes()...)
+	c = append(c, 0x5a, 0xf1) // GAS CALL
+	// ISZERO PUSH1 <dest> JUMPI STOP JUMPDEST PUSH1 0 PUSH1 0 REVERT
+	dest := byte(len(c) + 5)
+	c = append(c, 0x15, 0x60, dest, 0x57, 0x00, 0x5b, 0x60, 0x00, 0x60, 0x00, 0xfd)
+	return c
+}
 
 // world is the concrete instantiation shared by all replicas of one behaviour.
 type world struct {
@@ -80,6 +112,8 @@ type world struct {
 	txCache    map[string]types.Tx // committed transactions by abstract description (for replays)
 	spendCount int
 	lastRing   int
+	fwdCount   int
+	sstCount   int
 }
 
 type replica struct {
@@ -108,9 +142,12 @@ func (w *world) genesis() []appx.Alloc {
 	}
 	sort.Strings(names)
 	for _, n := range names {
-		al = append(al, appx.Alloc{Addr: w.accts[n].Addr, Balance: new(big.Int).Mul(Unit, big.NewInt(int64(w.initBal)))})
+		al = append(al, appx.Alloc{Addr: w.accts[n].Addr, Balance: new(big.Int).Mul(Unit, big.NewInt(int64(w.initBal))),
+			Tokens: map[common.Address]*big.Int{addrToken: units(1)}})
 	}
-	al = append(al, appx.Alloc{Addr: addrStore, Code: codeStore, Nonce: 1}, appx.Alloc{Addr: addrRevert, Code: codeRevert, Nonce: 1})
+	al = append(al, appx.Alloc{Addr: addrP1, Tokens: map[common.Address]*big.Int{addrToken: units(1)}}) // tokens only: no native coin, nonce 0
+	al = append(al, appx.Alloc{Addr: addrStore, Code: codeStore, Nonce: 1}, appx.Alloc{Addr: addrRevert, Code: codeRevert, Nonce: 1},
+		appx.Alloc{Addr: addrFwd, Code: codeFwd(), Nonce: 1}, appx.Alloc{Addr: addrSlots, Code: codeSlots, Nonce: 1})
 	return al
 }
 
@@ -129,6 +166,31 @@ func (w *world) build(t aTx, ref *appx.Env, newCoins *[]*appx.Coin) (types.Tx, e
 		}
 		*newCoins = append(*newCoins, coins...)
 		return tx, nil
+	case "tok":
+		to := addrP1
+		if a, ok := w.accts[t.T]; ok {
+			to = a.Addr
+		}
+		tx := types.NewTokenTransaction(addrToken, uint64(t.nonce()), to, units(t.A), uint64(types.MinGasLimit), big.NewInt(types.ParGasPrice), nil)
+		if err := tx.Sign(types.GlobalSTDSigner, w.accts[t.fromAcct()].Key); err != nil {
+			return nil, err
+		}
+		return tx, nil
+	case "fwd":
+		// gas: the contract-call transfer fee plus an ample budget, or one of several tight budgets
+		// that cannot pay the inner value CALL (which carries an extra transfer fee of >= 500000 gas)
+		fee := types.CalNewAmountGas(units(t.A), types.EverContractLiankeFee) // what moving this value costs, at each level
+		gas := fee
+		if t.T == "ample" {
+			gas += 2*fee + 2000000
+		} else {
+			w.fwdCount++
+			gas += []uint64{100000, 250000, fee / 2, fee - 1000, fee + 5000}[w.fwdCount%5]
+		}
+		return w.accts[t.fromAcct()].TransferGasLimit(uint64(t.nonce()), addrFwd, units(t.A), gas, nil), nil
+	case "sst":
+		w.sstCount++
+		return w.accts[t.fromAcct()].TransferGasLimit(uint64(t.nonce()), addrSlots, big.NewInt(0), 2000000, slotsData(t.A, byte(w.sstCount))), nil
 	case "call":
 		to := addrStore
 		if t.T == "cRevert" {
@@ -433,6 +495,8 @@ func replay(g *mbt.Graph, path []int, dir string, rng *rand.Rand, initBal int) (
 			switch {
 			case strings.HasPrefix(m, "conservation"):
 				cls = "conservation"
+			case strings.HasPrefix(m, "token:"):
+				cls = "ledger-mismatch/token"
 			case strings.HasPrefix(m, "nonce:"):
 				cls = "nonce/mismatch"
 			case strings.HasPrefix(m, "spent-mark:"):
@@ -472,6 +536,33 @@ func (w *world) compare(reps []*replica, to aState) string {
 			if got := st.GetNonce(a.Addr); got != uint64(to.Nonce[n]) {
 				return fmt.Sprintf("nonce: %s: nonce of %s is %d, the specification says %d (every executed transaction, failed ones included, consumes exactly one nonce)", r.name, n, got, to.Nonce[n])
 			}
+		}
+		// the passive account and the token
+		p1 := st.GetBalance(addrP1)
+		if p1.Cmp(units(to.Bal["p1"])) != 0 {
+			return fmt.Sprintf("%s: the passive account holds %v, the specification says %d units", r.name, p1, to.Bal["p1"])
+		}
+		total.Add(total, p1)
+		tokTotal := new(big.Int)
+		for n, want := range to.Tok {
+			addr := addrP1
+			if a, ok := w.accts[n]; ok {
+				addr = a.Addr
+			}
+			got := st.GetTokenBalance(addr, addrToken)
+			tokTotal.Add(tokTotal, got)
+			if got.Cmp(units(want)) != 0 {
+				return fmt.Sprintf("token: %s: token balance of %s is %v, the specification says %d units", r.name, n, got, want)
+			}
+		}
+		for _, a := range []common.Address{addrStore, addrRevert, addrFwd, cfg.ContractFoundationAddr, common.EmptyAddress} {
+			tokTotal.Add(tokTotal, st.GetTokenBalance(a, addrToken))
+		}
+		if tokTotal.Cmp(units(len(to.Tok))) != 0 {
+			return fmt.Sprintf("conservation: %s: the token supply is %v, it was %v", r.name, tokTotal, units(len(to.Tok)))
+		}
+		if b := st.GetBalance(addrFwd); b.Sign() != 0 {
+			return fmt.Sprintf("%s: the forwarding contract holds %v (it forwards or reverts)", r.name, b)
 		}
 		held := st.GetBalance(addrStore)
 		if held.Cmp(units(to.Held)) != 0 {
@@ -527,7 +618,11 @@ func Run(c *core.Ctx, focus string) {
 	o.Assumptions = []string{"confidential transactions use rings of size one (the stand-in implements no MLSAG)", "all results are relative to the stand-in for the absent libxcrypto binary", "two accounts, one wallet, two contracts (one keeps value, one always reverts); WASM contracts are not exercised"}
 	o.Rule = "behaviour = path through the TLC-exported graph of Ledger (sequence of offered blocks, valid and attacking: stale/future nonces, under-funded, double spends in and across blocks, tampered confidential spends) replayed on 3 replicas of the real application (trie proposer path, trie validator with warm mempool cache, flat-mode cold validator) in 2 processes with different GOMAXPROCS; non-trivial = at least one block was executed on the replicas; distinct = distinct edge sequences"
 	// (1) the design
-	res := c.TLC(tlc.Options{SpecDir: c.SpecDir("Ledger"), Module: "Ledger", Config: "Ledger.cfg", Workers: 4, Timeout: c.MinutesT(5, 20)})
+	designCfg := "Ledger.cfg"
+	if c.Thorough() {
+		designCfg = "LedgerBig.cfg"
+	}
+	res := c.TLC(tlc.Options{SpecDir: c.SpecDir("Ledger"), Module: "Ledger", Config: designCfg, Workers: 4, Timeout: c.MinutesT(8, 30)})
 	if res == nil {
 		return
 	}
